@@ -138,7 +138,8 @@ class Acc:
             verdict = "inconclusive"
             reason = (self.inconclusive[0] if self.inconclusive else "no execution")
         st = {"clauses": self.clauses, "outcomes": self.outcomes, "nontrivial": bool(self.sigs),
-              "sigs": sorted(self.sigs), "executions": self.executions, "sample": self.sample}
+              "sigs": sorted(self.sigs), "executions": self.executions, "sample": self.sample,
+              "empty": bool(self.empty_ok and not self.executions)}
         if extra_stats:
             st.update(extra_stats)
         out = {"verdict": verdict, "violations": self.violations, "stats": st}
